@@ -15,7 +15,7 @@ import (
 func init() {
 	register(&Property{
 		ID:          "C16",
-		Explanation: "R1: the standard error handler is read as a decision table: all acyclic CFG paths from entry to its WriteHeader are enumerated, branch conditions are canonicalised (type assertion / errors.As to T -> is(T), errors.Is with sentinel S -> is(S), Timeout() -> timeout), the constant reaching WriteHeader on each path is resolved through the phis, and the table is compared with the specified one (net.Error&&timeout->504, net.Error->502, io.EOF->502, context.Canceled->499, else 500) on every assignment of the atoms; exactly one WriteHeader followed by a body write on every path. R2: forward.New returns an httputil.ReverseProxy whose ErrorHandler is bound to that handler; relay hooks that could alter the response (ModifyResponse, Transport, FlushInterval) are left to the stdlib, and a configured BufferPool must hand out a freshly allocated buffer per Get. R3: in the state listener the 'disconnected' notification is registered with defer, after 'connected', before the wrapped handler is invoked, with the same URL value, so it runs on every exit including the http.ErrAbortHandler panic of an aborted relay. R4 (= C20.R3 for utils.ProxyWriter): the recording writer forwards Header/Write/WriteHeader unchanged on every path.",
+		Explanation: "R1: the standard error handler is read as a decision table: all acyclic CFG paths from entry to its WriteHeader are enumerated, branch conditions are canonicalised (type assertion / errors.As to T -> is(T), errors.Is with sentinel S -> is(S), Timeout() -> timeout), the constant reaching WriteHeader on each path is resolved through the phis, and the table is compared with the specified one (net.Error&&timeout->504, net.Error->502, io.EOF->502, context.Canceled->499, else 500) on every assignment of the atoms; exactly one WriteHeader followed by a body write on every path. R2: forward.New returns an httputil.ReverseProxy whose ErrorHandler is bound to that handler; relay hooks that could alter the response (ModifyResponse, Transport, FlushInterval) are left to the stdlib, and a configured BufferPool must hand out a freshly allocated buffer per Get. R3: in the state listener the 'disconnected' notification is registered with defer, after 'connected', before the wrapped handler is invoked, with the same URL value, so it runs on every exit including the http.ErrAbortHandler panic of an aborted relay. R4 (= C20.R3 for utils.ProxyWriter): the recording writer forwards Header/Write/WriteHeader unchanged on every path. R5 (= C08.R1): an unparsable RequestURI falls back to req.URL (no nil URL reaches the stdlib proxy).",
 		NotDecided: []string{
 			"which Go error values the transport produces for each failure mode; 'never a hang'",
 			"byte-faithful relay itself is httputil.ReverseProxy's (trusted), only the wiring is checked",
@@ -495,5 +495,6 @@ func mutantsC16() []Mutant {
 		{Name: "defer-after-handler", File: "forward/middlewares.go", Old: "\tdefer s.stateListener(req.URL, StateDisconnected)\n\n\ts.next.ServeHTTP(rw, req)\n", New: "\ts.next.ServeHTTP(rw, req)\n\tdefer s.stateListener(req.URL, StateDisconnected)\n", Expect: "C16.R3"},
 		{Name: "no-writeheader-on-500", File: "utils/handler.go", Old: "\tw.WriteHeader(statusCode)\n", New: "\tif statusCode != http.StatusInternalServerError {\n\t\tw.WriteHeader(statusCode)\n\t}\n", Expect: "C16.R1"},
 		{Name: "proxywriter-ignores-second-writeheader", File: "utils/netutils.go", Old: "\tp.code = code\n\tp.w.WriteHeader(code)\n", New: "\tif p.code != 0 {\n\t\treturn\n\t}\n\tp.code = code\n\tp.w.WriteHeader(code)\n", Expect: "C16.R4"},
+		{Name: "requesturi-parse-error-ignored", File: "forward/fwd.go", Old: "\t\tparsedURL, err := url.ParseRequestURI(req.RequestURI)\n\t\tif err == nil {\n\t\t\treturn parsedURL\n\t\t}\n", New: "\t\tparsedURL, _ := url.ParseRequestURI(req.RequestURI)\n\t\treturn parsedURL\n", Expect: "C16.R5"},
 	}
 }
